@@ -3,6 +3,8 @@ import XtModel.Model.Encoding
 import XtModel.Model.TranscodeWire
 import XtModel.Model.Chunker
 import XtModel.Model.Output
+import XtModel.Model.Input
+import XtModel.Model.Detect
 import XtModel.Model.TomlOrder
 
 /-!
@@ -58,6 +60,81 @@ def encoding (fs : List String) : String :=
         let (out, err) := Encoding.collect (Encoding.encoderReads e bs (ns ++ drain))
         toHex out ++ " " ++ (match err with | none => "ok" | some e => rerr e)
     | _, _ => "bad-case"
+  | _ => "bad-case"
+
+
+/-! ### Engine `handle`: programs over the rewindable input handle -/
+
+def parseOp (s : String) : Option Input.Op :=
+  match s.toList with
+  | ['B'] => some .borrow
+  | ['C'] => some .intoCow
+  | 'R' :: ds => (String.ofList ds).toNat?.map .read
+  | 'P' :: ds => (String.ofList ds).toNat?.map .prefix
+  | 'I' :: ds => (String.ofList ds).toNat?.map .intoInput
+  | _ => none
+
+def parseOps (s : String) : Option (List Input.Op) :=
+  if s = "-" then some [] else (s.splitOn ",").mapM parseOp
+
+/-- `-` = uncapped, `3,1,2` = caps used once each, `~3,1` = caps cycling forever. -/
+def parseCaps (s : String) : Option (List Nat × Bool) :=
+  match s.toList with
+  | '~' :: rest => (parseNats (String.ofList rest)).map (·, true)
+  | _ => (parseNats s).map (·, false)
+
+def parseOptNat (s : String) : Option (Option Nat) :=
+  if s = "-" then some none else s.toNat?.map some
+
+def siteName : Input.Site → String
+  | .unreadSub => "unread-sub" | .bufPrefix => "buf-prefix"
+  | .bufRest => "buf-rest" | .bufSource => "buf-source"
+
+def obsTok : Input.Obs → String
+  | .refSlice bs => "rs:" ++ toHex bs
+  | .refReader => "rr"
+  | .read bs => "r:" ++ toHex bs
+  | .prefix bs => "p:" ++ toHex bs
+  | .inputSlice bs => "is:" ++ toHex bs
+  | .inputReader bs => "ir:" ++ toHex bs
+  | .cow bs => "c:" ++ toHex bs
+  | .err _ _ => "e"
+  | .skipped => "s"
+  | .panic s => "panic:" ++ siteName s
+
+def handle (fs : List String) : String :=
+  match fs with
+  | ["handle", hex, caps, fail, ops] =>
+    match parseHex hex, parseCaps caps, parseOptNat fail, parseOps ops with
+    | some bs, some (cs, cyc), some fa, some ops =>
+      let obs := Input.handleProgram (Input.Source.new bs cs cyc fa) ops
+      if obs.isEmpty then "-" else " ".intercalate (obs.map obsTok)
+    | _, _, _, _ => "bad-case"
+  | _ => "bad-case"
+
+
+/-! ### Engines `detectlist`, `mpmarker`: the decision list and the MessagePack first-byte test -/
+
+def parseTrial : String → Option Detect.Trial
+  | "match" => some .matched
+  | "nomatch" => some .noMatch
+  | "ioerr" => some .ioErr
+  | _ => none
+
+def detectedTok : Detect.Detected → String
+  | .fmt .msgpack => "msgpack" | .fmt .json => "json" | .fmt .yaml => "yaml" | .fmt .toml => "toml"
+  | .none => "none" | .ioErr => "ioerr"
+
+def detectEng (fs : List String) : String :=
+  match fs with
+  | "detectlist" :: m :: j :: y :: t :: _ =>   -- further fields (supply mode, input bytes) are for replay only
+    match parseTrial m, parseTrial j, parseTrial y, parseTrial t with
+    | some m, some j, some y, some t => detectedTok (Detect.detectFormat m j y t)
+    | _, _, _, _ => "bad-case"
+  | ["mpmarker", b] =>
+    match b.toNat? with
+    | some b => if Detect.markerTest b then "coll" else "other"
+    | none => "bad-case"
   | _ => "bad-case"
 
 /-! ### tomlorder: `s<tag>` | `a[x;y]` | `t{k=x;k=y}` -/
@@ -253,6 +330,8 @@ def answer (fs : List String) : String :=
   | "encdetect" :: _ | "reencode" :: _ | "reencstream" :: _ => encoding fs
   | ["transcode", tree, script] => Xt.TranscodeWire.runTranscode tree script
   | ["valuepath", tree, script] => Xt.TranscodeWire.runValuePath tree script
+  | "handle" :: _ => handle fs
+  | "detectlist" :: _ | "mpmarker" :: _ => detectEng fs
   | "tomlorder" :: _ => tomlorder fs
   | "chunker" :: _ | "guards" :: _ => chunker fs
   | "frame" :: _ | "tomlout" :: _ => output fs
